@@ -486,6 +486,25 @@ class C10(Prop):
             h = History(ops, {"cfg": cfg.line, "kind": cfg.kind, "ty": cfg.ty, "feats": sorted(feats),
                               "reset_at": reset_at, "pairs": pairs})
             hs.append(h)
+        # user-implemented interpolators of arbitrary (odd) length: reset() must restore the constructor's read position
+        for i in range(max(8, self.n // 8)):
+            kind = rng.choice(["sincin", "sincout"])
+            cfg = gen.gen_cfg(rng, kinds=[kind], probe=True, max_chunk=300)
+            p = cfg.line.split()
+            if p[4] in ("0", "1") and p[6] == "1":
+                continue        # D12
+            p[5] = str(rng.choice([3, 5, 7, 9, 11, 33] if kind == "sincin" else [1, 3, 5, 7, 9, 11, 33]))
+            p[-1] = "rprobe"
+            cfg.line = " ".join(p)
+            ops = [cfg.new(0)] + ["0 proc - n m r5"] * rng.randint(0, 3)
+            reset_at = len(ops)
+            ops += ["0 reset", cfg.new(1)]
+            pairs = 0
+            for _ in range(rng.randint(2, 4)):
+                ops += ["0 proc - n m r9", "1 proc - n m r9"]
+                pairs += 1
+            hs.append(History(ops, {"cfg": cfg.line, "kind": kind, "ty": cfg.ty, "feats": ["failed", "odd-length-interpolator"],
+                                    "reset_at": reset_at, "pairs": pairs}))
         # fixed-output types with chunk/ratio on (or one ulp from) an integer: whatever arithmetic reset() uses for the sizes it
         # recomputes must round like the constructor's.  reset() directly after construction or after a few calls.
         for i in range(max(12, self.n // 4)):
@@ -1496,6 +1515,7 @@ class C04(Prop):
             sg = rng.choice(["i", "r%d" % rng.randint(0, 999)])
             ops = [cfg.new(0), cfg.new(1)]
             pairs = []
+            dynpairs = []
             for _ in range(rng.randint(3, 14)):
                 c = rng.random()
                 if c < 0.12 and cfg.kind in gen.ASYNC and cfg.maxrel > 1:
@@ -1505,12 +1525,16 @@ class C04(Prop):
                 elif c < 0.2 and cfg.kind in ("sincin", "sincout"):
                     n = rng.randint(1, cfg.chunk)
                     ops += [f"0 chunk {n}", f"1 chunk {n}"]
+                elif c < 0.3:
+                    # the advertised counts read through `&dyn VecResampler` are the same advertised counts
+                    dynpairs.append(len(ops))
+                    ops += ["0 get dyn", "0 get"]
                 else:
                     big = rng.choice(["n+1", "n+%d" % rng.randint(2, 700), "m", "m+%d" % rng.randint(1, 2000)])
                     pairs.append(len(ops))
                     ops += [f"0 proc - {big} m {sg}", f"1 proc - n m {sg}"]
             hs.append(History(ops, {"cfg": cfg.line, "kind": cfg.kind, "ty": cfg.ty, "feats": ["oversized-twin", "part"],
-                                    "twin_pairs": pairs}))
+                                    "twin_pairs": pairs, "dyn_pairs": dynpairs}))
         # the max getters are promises for the whole life: go to the low end of the permitted range, read them, go to the high
         # end (stepped or ramped), read next; failures of the fixed-input types on such schedules are the findings D3/D4
         for i in range(max(8, self.n // 5)):
@@ -1541,6 +1565,14 @@ class C04(Prop):
             if fa["status"] != fb["status"] or fa["g"] != fb["g"] or fa["d"] != fb["d"]:
                 out.append(viol("C04", h, k, SlotInfo(h.ops[0]), "frames-beyond-reported-count-influence-the-output",
                                 {"oversized": ra[:200], "exact": rb[:200]}))
+                return out
+        for k in h.meta.get("dyn_pairs", []):
+            ra, rb = h.real[k], h.real[k + 1]
+            if "skip" in (ra, rb):
+                break
+            if fields(ra)["g"] != fields(rb)["g"]:
+                out.append(viol("C04", h, k, SlotInfo(h.ops[0]), "wrapper-trait-advertises-other-counts",
+                                {"through_dyn": ra[:160], "direct": rb[:160]}))
                 return out
         for k, slot, name, t, fr, fm, info, gb in walk(h):
             if fr is None or info is None:
@@ -1677,7 +1709,9 @@ class C07(Prop):
                                      "bound": float(bound)}))
                     break
                 # the theorem's constant (exact arithmetic) plus a rounding allowance of 1 frame
-                tb = r * (info.L // 2 + 1 + math.ceil(1 / r)) + 1 if info.kind in ("fastin", "sincin") else r * (info.L // 2 + 1) + 1
+                # (L - L/2 rather than L/2: a user interpolator may have an odd length; the read position starts at -(L/2))
+                hl = info.L - info.L // 2
+                tb = r * (hl + 1 + math.ceil(1 / r)) + 1 if info.kind in ("fastin", "sincin") else r * (hl + 1) + 1
                 if dev < -1 or dev > tb + 1:
                     out.append(viol("C07", h, k, info, "outside-theorem-constant",
                                     {"total_in": tin, "total_out": tout, "deviation": float(dev), "theorem_bound": float(tb)}))
@@ -1790,6 +1824,25 @@ class C05(Prop):
                 hs.append(History(ops, {"cfg": cfg.line, "kind": kind, "ty": cfg.ty, "feats": sorted(feats),
                                         "pair": (p[1], p2[1]), "chunks": (ca, cb), "fft": False,
                                         "exact": cfg.line.endswith("probe") and sig == "i"}))
+                if kind.startswith("sinc") and rng.random() < 0.5:
+                    # the same pair at a dyadic ratio with a tiny oversampling factor: instants fall EXACTLY on the fine grid and
+                    # on its half points (exact in f64, so the choice made there must not depend on the chunking), and
+                    # consecutive frames share a grid point when ratio > factor
+                    rr, ff = rng.choice([(2.0, 1), (4.0, 2), (32.0, 16), (8.0, 4), (4.0, 1), (16.0, 2), (0.5, 1), (8.0, 3)])
+                    q, q2 = list(p), list(p2)
+                    for z in (q, q2):
+                        z[2], z[6] = hx(rr), str(ff)
+                        z[4] = str(rng.choice([2, 3]))      # Linear / Nearest accept every factor (Cubic/Quadratic need >= 2: D12)
+                        z[9] = str(min(int(z[9]), 256))
+                    q2[4] = q[4]
+                    ops2 = [f"0 new {' '.join(q)}", f"1 new {' '.join(q2)}"]
+                    for slot, z in ((0, q), (1, q2)):
+                        per = int(z[9]) if z[1].endswith("in") else max(1, int(int(z[9]) / rr))
+                        for j in range(max(2, min(600, 1200 // max(1, per)))):
+                            ops2.append(f"{slot} proc - n m {sig} dump")
+                    hs.append(History(ops2, {"cfg": " ".join(q), "kind": kind, "ty": cfg.ty, "feats": ["grid-ties"],
+                                             "pair": (q[1], q2[1]), "chunks": (int(q[9]), int(q2[9])), "fft": False,
+                                             "exact": False}))
             else:
                 ri, ro = rng.choice([(44100, 48000), (48000, 44100), (2, 3), (3, 2), (147, 160), (16000, 48000), (7, 5), (1, 1)])
                 g = math.gcd(ri, ro)
@@ -1843,7 +1896,11 @@ class C05(Prop):
         if i0 is not None and i0.kind in gen.ASYNC:
             from fractions import Fraction
             nearest_fast = i0.kind.startswith("fast") and i0.p[2] == "4"
-            if nearest_fast or sinc_kind:
+            tt0 = 1 / Fraction(i0.orig)
+            # steps that are dyadic rationals of small height are added without any rounding: the position is exact and a
+            # grid tie is resolved by the code deterministically, so it must NOT depend on the chunking either
+            exact_steps = (tt0.denominator & (tt0.denominator - 1)) == 0 and tt0.denominator <= 2 ** 20 and tt0.numerator < 2 ** 20
+            if (nearest_fast or sinc_kind) and not exact_steps:
                 tt = 1 / Fraction(i0.orig)
                 f_ = int(i0.p[4]) if sinc_kind else 1
                 half = Fraction(1, 2) if (sinc_kind and i0.p[2] == "3") else 0
@@ -2100,6 +2157,30 @@ class C11(Prop):
                     feats.add("chunk")
             hs.append(History(ops, {"cfg": cfg.line, "kind": cfg.kind, "ty": cfg.ty, "feats": sorted(feats),
                                     "mask": mask, "nch": nch}))
+        # sinc types at a ratio far above the oversampling factor: consecutive output frames fall on the SAME fine-grid point,
+        # whatever is remembered from the previous frame must be per channel
+        for i in range(max(8, self.n // 6)):
+            nch = rng.randint(2, 4)
+            kind = rng.choice(["sincin", "sincout"])
+            cfg = gen.gen_cfg(rng, kinds=[kind], nch=nch, max_chunk=64, probe=True)
+            p = cfg.line.split()
+            p[2] = hx(rng.choice([4.0, 8.0, 16.0, 100.0, 6.5]))
+            p[4] = str(rng.choice([2, 3]))
+            p[6] = str(rng.choice([1, 2, 3]))
+            p[9] = str(min(int(p[9]), 16 if kind == "sincin" else 64))
+            cfg.line = " ".join(p)
+            mask = "".join(rng.choice("01") for _ in range(nch))
+            one = list(p)
+            one[10] = "1"
+            ops = [cfg.new(0), cfg.new(1)] + [f"{2 + c} new {' '.join(one)}" for c in range(nch)]
+            sg = "r%d" % rng.randint(0, 999)
+            for _ in range(rng.randint(2, 5)):
+                ops.append(f"0 proc {mask} n m {sg} em")
+                ops.append(f"1 proc - n m {sg}")
+                for c in range(nch):
+                    ops.append(f"{2 + c} proc - n m {sg} co={c}")
+            hs.append(History(ops, {"cfg": cfg.line, "kind": kind, "ty": cfg.ty, "feats": ["mask:" + mask, "same-grid-point"],
+                                    "mask": mask, "nch": nch}))
         return hs
 
     def distinct_key(self, h):
@@ -2275,6 +2356,24 @@ class C14(Prop):
             ops = [cfg.new(0)] + pre + [f"0 proc - n m k{n} dump"] * ncalls
             hs.append(History(ops, {"cfg": cfg.line, "kind": cfg.kind, "ty": cfg.ty, "feats": ["impulse"], "n": n,
                                     "ratio": ratio}))
+        # polynomial types: run far from the construction ratio, reset(), then the clip: the delay read after reset() must be
+        # the true delay of what follows
+        for i in range(6):
+            kind = rng.choice(["fastin", "fastout"])
+            cfg = gen.gen_cfg(rng, kinds=[kind], ty=rng.choice(["f64", "f32"]), nch=1, max_chunk=512)
+            p = cfg.line.split()
+            p[2], p[3] = hx(rng.choice([0.5, 1.0, 2.0, 48000 / 44100])), hx(8.0)
+            p[5] = str(max(64, int(p[5])))
+            cfg.line = " ".join(p)
+            cfg.ratio, cfg.maxrel, cfg.chunk = unhx(p[2]), 8.0, int(p[5])
+            r1 = cfg.ratio * rng.choice([4.0, 6.0, 0.2, 0.15])
+            n = rng.randint(40, 600)
+            per_in = cfg.chunk if kind == "fastin" else max(1, cfg.chunk / cfg.ratio)
+            ncalls = int((n + 4 * 8 + 50 + int(10 / cfg.ratio)) / per_in) + 3
+            pre = [f"0 ratio {hx(r1)} {rng.choice([0, 1])}"] + ["0 proc - n m z"] * rng.randint(0, 2) + ["0 reset"]
+            hs.append(History([cfg.new(0)] + pre + [f"0 proc - n m k{n} dump"] * ncalls,
+                              {"cfg": cfg.line, "kind": kind, "ty": cfg.ty, "feats": ["impulse", "after-reset"], "n": n,
+                               "ratio": cfg.ratio}))
         # large FFT blocks (small-gcd rate pairs, big chunks): the delay must stay half a block whatever the block length
         for (ri, ro, chunk) in [(44100, 44110, 64), (48000, 44090, 64), (44100, 48000, 8192), (1000, 1001, 5000)][:2 if self.tier == "quick" else 4]:
             kind = rng.choice(gen.FFT)
@@ -2302,7 +2401,8 @@ class C14(Prop):
         delay = None
         for k, slot, name, t, fr, fm, inf, gb in walk(h):
             info = inf
-            if fr and fr["g"]:
+            # the delay a user reads BEFORE feeding the clip (README recipe): after the last constructor / setter / reset
+            if fr and fr["g"] and name != "proc":
                 delay = fr["g"][4]
             if fr and fr["status"] in ("panic", "abort"):
                 return out
@@ -2389,6 +2489,9 @@ class ToneProp(Prop):
             tries += 1
             fam = rng.random()
             ty = "f64" if rng.random() < 0.8 else "f32"
+            big32 = len(hs) < 4      # the first four streams: f32, long calls (thousands of input frames per call), high tone
+            if big32:
+                fam, ty = 0.0, "f32"
             if fam < 0.7:
                 kind = rng.choice(["sincin", "sincout"])
                 ratio = math.exp(rng.uniform(math.log(1 / 8), math.log(8))) if rng.random() < 0.6 else rng.choice([0.5, 2.0, 48000 / 44100, 44100 / 48000, 1.0, 3.0, 1 / 3])
@@ -2396,12 +2499,18 @@ class ToneProp(Prop):
                 win = rng.randint(0, 5)
                 it = rng.randint(0, 3)
                 osf = rng.choice([128, 256, 1024, 2048]) if it in (2, 3) else rng.choice([16, 64, 128, 256])
+                if big32:
+                    kind = ["sincin", "sincout", "sincout", "sincin"][len(hs)]
+                    ratio = rng.choice([48000 / 44100, 44100 / 48000, 1.0, 0.8])
+                    it, osf = rng.choice([0, 1, 2]), 256
                 cc = calc_cutoff(sl, win)
                 fcut = cc if rng.random() < 0.6 else rng.choice([0.9, 0.8, 0.95 * cc])
                 fcut = struct_f32(fcut)
                 lowmin = min(1.0, ratio)
                 halfw = (1 - cc) / lowmin
                 chunk = rng.choice([64, 256, 1000, 1024])
+                if big32:
+                    chunk = 4096
                 # the permitted adjustment range must not influence the filter
                 maxrel = rng.choice([1.0, 1.0, 1.25, 2.0, 10.0])
                 line = f"{ty} {kind} {hx(ratio)} {hx(maxrel)} {it} {sl} {osf} {hx32(fcut)} {win} {chunk} 1 auto"
@@ -2409,7 +2518,7 @@ class ToneProp(Prop):
                     edge = fcut - halfw
                     if edge <= 0.05:
                         continue
-                    u = rng.uniform(0.05, 0.98)
+                    u = rng.uniform(0.05, 0.98) if not big32 else rng.uniform(0.8, 0.98)
                     f_low = u * edge                      # relative to the lower Nyquist
                     f_in = 0.5 * f_low * lowmin           # cycles per input sample
                 else:
